@@ -1,11 +1,239 @@
-import SigmaVerif.Spec.Placeholder
-namespace SigmaVerif.Props.C17
-open SigmaVerif.SStr SigmaVerif.Placeholder
+import SigmaVerif.Lemmas.Placeholder
+/-!
+# C17 — placeholders in values: expansion by pipelines, complete or failing
 
-/-- configuration order, first placeholder most significant -/
-theorem replaceAll_order (repl : Str → Option (List SStr)) (n : Str) (r : SStr) (alts : List SStr)
+Property theorems only.  Helper lemmas, the auxiliary definitions (`Choice`, `subst`, `altCount`)
+and the example configurations (`exRepl`, `exVal`, `exVal2`, `exVars`, `exCtx`, `exConv`) are in
+`SigmaVerif.Lemmas.Placeholder`.
+-/
+namespace SigmaVerif.Props.C17
+open SigmaVerif.SStr SigmaVerif.Mods SigmaVerif.Placeholder SigmaVerif.Rule
+
+/-! ## 1. The cross product is complete and exact -/
+
+/-- The number of results is the product, over the placeholder occurrences of the value, of the
+number of alternatives of each handled placeholder (an unhandled placeholder counts 1). -/
+theorem replaceAll_count (repl : Str → Option (List SStr)) (s : SStr) :
+    (replaceAll repl s).length =
+      ((phNames s).map (fun n => match repl n with | some a => a.length | none => 1)).prod :=
+  replaceAll_count_aux repl s
+
+example : (replaceAll exRepl exVal).length = 6 := by decide
+example : (phNames exVal).map (fun n => match exRepl n with | some a => a.length | none => 1)
+    = [2, 3, 1] := by decide
+
+/-- The results are exactly the combinations of one alternative per handled placeholder; unhandled
+placeholders and every other part are untouched. -/
+theorem replaceAll_mem (repl : Str → Option (List SStr)) (s t : SStr) :
+    t ∈ replaceAll repl s ↔ Choice repl s t :=
+  replaceAll_mem_aux repl s t
+
+example : Choice exRepl exVal [.lit 'p', .lit '2', .lit '-', .lit 'y', .ph ['c']] :=
+  (replaceAll_mem _ _ _).1 (by decide)
+example : ¬ Choice exRepl exVal [.lit 'p', .lit '2', .lit '-', .lit 'y'] :=
+  fun h => absurd ((replaceAll_mem _ _ _).2 h) (by decide)
+
+/-- Ordering law: configuration order, the first placeholder is the most significant. -/
+theorem replaceAll_order (repl : Str → Option (List SStr)) (n : Str) (alts : List SStr) (r : SStr)
     (h : repl n = some alts) :
-    replaceAll repl (.ph n :: r) = alts.flatMap (fun a => (replaceAll repl r).map (a ++ ·)) := by
-  simp [replaceAll, h]
+    replaceAll repl (.ph n :: r) = alts.flatMap (fun a => (replaceAll repl r).map (a ++ ·)) :=
+  replaceAll_ph_some h r
+
+example : replaceAll exRepl [.ph ['a'], .ph ['b']] =
+    [[.lit '1', .lit 'x'], [.lit '1', .lit 'y'], [.lit '1', .lit 'z'],
+     [.lit '2', .lit 'x'], [.lit '2', .lit 'y'], [.lit '2', .lit 'z']] := by decide
+
+/-- A value with exactly one placeholder gives one result per alternative, in configuration
+order, with the text before and after the placeholder unchanged. -/
+theorem replaceAll_single (repl : Str → Option (List SStr)) (pre post : SStr) (n : Str)
+    (alts : List SStr) (hr : repl n = some alts) (h1 : noPh pre = true) (h2 : noPh post = true) :
+    replaceAll repl (pre ++ [.ph n] ++ post) = alts.map (fun a => pre ++ a ++ post) :=
+  replaceAll_single_aux repl pre post n alts hr h1 h2
+
+example : replaceAll exRepl ([.lit 'p'] ++ [.ph ['b']] ++ [.star]) =
+    [[.lit 'p', .lit 'x', .star], [.lit 'p', .lit 'y', .star], [.lit 'p', .lit 'z', .star]] :=
+  replaceAll_single exRepl [.lit 'p'] [.star] ['b'] _ rfl rfl rfl
+
+/-! ## 2. Complete expansion or failure -/
+
+/-- If every placeholder of the value is handled by placeholder-free replacements, no result
+contains a placeholder. -/
+theorem replaceAll_noPh (repl : Str → Option (List SStr)) (s : SStr)
+    (hall : ∀ n ∈ phNames s, ∃ alts, repl n = some alts ∧ ∀ a ∈ alts, noPh a = true) :
+    ∀ t ∈ replaceAll repl s, noPh t = true :=
+  fun t ht => ((replaceAll_mem_aux repl s t).1 ht).noPh hall
+
+example : ∀ t ∈ replaceAll exRepl exVal2, noPh t = true :=
+  replaceAll_noPh exRepl exVal2 (by decide)
+
+/-- An unhandled placeholder survives in every result. -/
+theorem replaceAll_keeps_unhandled (repl : Str → Option (List SStr)) (s : SStr) (n : Str)
+    (hn : n ∈ phNames s) (h : repl n = none) : ∀ t ∈ replaceAll repl s, n ∈ phNames t :=
+  fun t ht => ((replaceAll_mem_aux repl s t).1 ht).keeps n hn h
+
+example : ∀ t ∈ replaceAll exRepl exVal, ['c'] ∈ phNames t :=
+  replaceAll_keeps_unhandled exRepl exVal ['c'] (by decide) (by decide)
+
+/-- A rendered string never comes from a value that still has a placeholder. -/
+theorem convert_ok_noPh (k : Conv) (s : SStr) (t : Str) (h : convert k s = .ok t) :
+    noPh s = true :=
+  convert_ok_noPh_aux k s t h
+
+theorem toRegex_ok_noPh (custom : Str) (s : SStr) (t : Str) (h : toRegex custom s = .ok t) :
+    noPh s = true :=
+  convert_ok_noPh_aux _ s t h
+
+example : convert exConv [.lit 'a', .star] = .ok ['a', '*'] := rfl
+example : toRegex [] [.lit 'a', .star] = .ok ['a', '.', '*'] := rfl
+
+/-- Conversely: a value with a placeholder cannot be converted. -/
+theorem convert_ph_error (k : Conv) (s : SStr) (n : Str) (h : n ∈ phNames s) :
+    ∃ e, convert k s = .error e := by
+  cases hc : convert k s with
+  | error e => exact ⟨e, rfl⟩
+  | ok t =>
+    have := (noPh_iff s).1 (convert_ok_noPh_aux k s t hc)
+    rw [this] at h; cases h
+
+theorem toRegex_ph_error (custom : Str) (s : SStr) (n : Str) (h : n ∈ phNames s) :
+    ∃ e, toRegex custom s = .error e :=
+  convert_ph_error _ s n h
+
+/-- The error names the first placeholder, provided everything before it can be rendered (no
+wildcard the configuration has no token for). -/
+theorem convert_ph_first (k : Conv) (pre post : SStr) (n : Str) (hpre : noPh pre = true)
+    (hm : k.multi = none → Part.star ∉ pre) (hs : k.single = none → Part.qm ∉ pre) :
+    convert k (pre ++ .ph n :: post) = .error (.placeholder n) :=
+  convert_ph_first_aux k pre post n hpre hm hs
+
+/-- For a configuration with both wildcard tokens the error is always the first placeholder. -/
+theorem convert_ph_first' (k : Conv) (hm : k.multi ≠ none) (hs : k.single ≠ none) (s : SStr)
+    (m : Str) (ms : List Str) (h : phNames s = m :: ms) :
+    convert k s = .error (.placeholder m) := by
+  obtain ⟨pre, post, rfl, hp⟩ := split_first_ph s m ms h
+  exact convert_ph_first_aux k pre post m hp (fun h => absurd h hm) (fun h => absurd h hs)
+
+theorem toRegex_ph_first (custom : Str) (s : SStr) (m : Str) (ms : List Str)
+    (h : phNames s = m :: ms) : toRegex custom s = .error (.placeholder m) :=
+  convert_ph_first' _ (by simp [regexConv]) (by simp [regexConv]) s m ms h
+
+example : convert exConv exVal = .error (.placeholder ['a']) :=
+  convert_ph_first' exConv (by decide) (by decide) exVal ['a'] [['b'], ['c']] rfl
+/-- the side condition is needed: a wildcard without token before the placeholder wins -/
+example : convert { exConv with multi := none } [.star, .ph ['a']] = .error .noMulti := rfl
+
+/-- `strBE`: if, after all placeholder items have run, some alternative still has a placeholder,
+the value is an error naming a placeholder of one of the alternatives. -/
+theorem strBE_unresolved (cx : Ctx) (field : Option Str) (c : Bool) (s : SStr) (vs : List SStr)
+    (hs : noPh s = false) (hrun : phRun cx cx.phItems (.alts [s]) = .ok (.alts vs))
+    (hex : ∃ v ∈ vs, noPh v = false) :
+    ∃ v n, v ∈ vs ∧ n ∈ phNames v ∧ strBE cx field c s = .error (.unresolved n) :=
+  strBE_unresolved_aux cx field c s vs hs hrun hex
+
+example : phRun (exCtx [⟨.value, some [['a']], none⟩]) (exCtx [⟨.value, some [['a']], none⟩]).phItems
+      (.alts [exVal2]) =
+    .ok (.alts [[.lit 'p', .lit '1', .lit '-', .ph ['b']],
+                [.lit 'p', .lit '2', .star, .lit '-', .ph ['b']]]) := rfl
+
+example : ∃ n, strBE (exCtx [⟨.value, some [['a']], none⟩]) (some ['f']) true exVal2 =
+    .error (.unresolved n) :=
+  let ⟨_, n, _, _, h⟩ := strBE_unresolved (exCtx [⟨.value, some [['a']], none⟩]) (some ['f']) true
+    exVal2 [[.lit 'p', .lit '1', .lit '-', .ph ['b']], [.lit 'p', .lit '2', .star, .lit '-', .ph ['b']]]
+    rfl rfl ⟨[.lit 'p', .lit '1', .lit '-', .ph ['b']], by simp, rfl⟩
+  ⟨n, h⟩
+
+/-- `strBE`: every atom of a successful result is placeholder-free (or a query expression). -/
+theorem strBE_ok_atoms (cx : Ctx) (field : Option Str) (c : Bool) (s : SStr) (e : BE)
+    (h : strBE cx field c s = .ok e) :
+    ∀ a ∈ e.atoms, (∃ p, a = .str field c p ∧ noPh p = true) ∨ (∃ ex i, a = .qx field ex i) :=
+  strBE_ok_atoms_aux cx field c s e h
+
+example : strBE (exCtx [⟨.value, none, none⟩]) (some ['f']) false exVal2 =
+    .ok (.or [.atom (.str (some ['f']) false [.lit 'p', .lit '1', .lit '-', .lit 'x']),
+              .atom (.str (some ['f']) false [.lit 'p', .lit '2', .star, .lit '-', .lit 'x'])]) := by
+  rfl
+
+/-- `strBE`: a placeholder that no item of the pipeline handles makes the value an error, whatever
+the items do with the other placeholders. -/
+theorem strBE_unhandled_fails (cx : Ctx) (field : Option Str) (c : Bool) (s : SStr) (n : Str)
+    (hn : n ∈ phNames s) (hh : ∀ it ∈ cx.phItems, handled it n = false) :
+    ∃ e, strBE cx field c s = .error e :=
+  strBE_unhandled_aux cx field c s n hn hh
+
+example : strBE (exCtx [⟨.value, some [['a']], none⟩, ⟨.wildcard, none, some [['c']]⟩]) none false exVal =
+    .error (.unresolved ['c']) := by rfl
+
+/-! ## 3. What one item does -/
+
+theorem handled_spec (it : PhItem) (n : Str) :
+    handled it n = true ↔
+      (it.incl = none ∧ it.excl = none) ∨ (∃ l, it.incl = some l ∧ n ∈ l) ∨
+      (it.incl = none ∧ ∃ l, it.excl = some l ∧ n ∉ l) := by
+  unfold handled
+  cases hi : it.incl <;> cases he : it.excl <;> simp
+
+example : handled ⟨.value, some [['a']], some [['a']]⟩ ['a'] = true := by decide
+example : handled ⟨.value, none, some [['a']]⟩ ['a'] = false := by decide
+
+/-- A value-list or wildcard item leaves a value alone when it handles none of its placeholders. -/
+theorem applyItem_same_if_no_handled (vars : List (Str × List VarVal)) (it : PhItem) (s : SStr)
+    (h : ∀ n ∈ phNames s, handled it n = false) (hk : it.kind = .value ∨ it.kind = .wildcard) :
+    applyItem vars it s = .same := by
+  have := any_handled_false it _ h
+  unfold applyItem
+  rcases hk with hk | hk <;> simp [hk, this]
+
+example : applyItem exVars ⟨.value, some [['z']], none⟩ exVal = .same :=
+  applyItem_same_if_no_handled _ _ _ (by decide) (.inl rfl)
+
+/-- the restriction to value-list / wildcard items is needed: a query-expression item rejects a
+mixed value even when it handles none of its placeholders -/
+example : applyItem [] ⟨.query ['q'] [], some [], none⟩ [.lit 'x', .ph ['a']] = .err .mixed := rfl
+
+/-- A wildcard item that handles some placeholder of the value gives exactly one result: the
+value with every handled placeholder replaced by `*`. -/
+theorem wildcard_result (vars : List (Str × List VarVal)) (it : PhItem) (s : SStr)
+    (hk : it.kind = .wildcard) (h : ∃ n ∈ phNames s, handled it n = true) :
+    applyItem vars it s = .alts [subst it s] := by
+  have := any_handled_true it _ h
+  unfold applyItem
+  simp [hk, this, replaceAll_wild]
+
+example : applyItem [] ⟨.wildcard, none, some [['c']]⟩ exVal =
+    .alts [[.lit 'p', .star, .lit '-', .star, .ph ['c']]] :=
+  wildcard_result _ _ _ rfl (by decide)
+
+/-- A handled placeholder without a variable is an error, never a silent pass-through. -/
+theorem value_missing_var (vars : List (Str × List VarVal)) (it : PhItem) (s : SStr) (n : Str)
+    (hk : it.kind = .value) (hn : n ∈ phNames s) (hh : handled it n = true)
+    (hv : vars.find? (·.1 == n) = none) : ∃ e, applyItem vars it s = .err e := by
+  have hany := any_handled_true it _ ⟨n, hn, hh⟩
+  have hl : lookupVar vars n = .error (.missingVar n) := by unfold lookupVar; rw [hv]
+  obtain ⟨e, he⟩ := firstVarErr_some vars it _ n hn hh _ hl
+  exact ⟨e, by unfold applyItem; simp [hk, hany, he]⟩
+
+example : ∃ e, applyItem exVars ⟨.value, none, none⟩ exVal = .err e :=
+  value_missing_var _ _ _ ['c'] rfl (by decide) (by decide) (by decide)
+
+/-- A query-expression item accepts only a value that is one placeholder and nothing else. -/
+theorem query_only_whole (vars : List (Str × List VarVal)) (it : PhItem) (expr : Str)
+    (mapping : List (Str × Str)) (s : SStr) (hk : it.kind = .query expr mapping)
+    (h1 : phNames s ≠ []) (h2 : ∀ n, s ≠ [.ph n]) : applyItem vars it s = .err .mixed := by
+  have hne : (phNames s).isEmpty = false := by
+    cases hp : phNames s with
+    | nil => exact absurd hp h1
+    | cons _ _ => rfl
+  unfold applyItem
+  simp only [hk, hne]
+  match s, h2 with
+  | [], _ => rfl
+  | [.ph n], h2 => exact absurd rfl (h2 n)
+  | [.lit _], _ => rfl
+  | [.star], _ => rfl
+  | [.qm], _ => rfl
+  | _ :: _ :: _, _ => rfl
+
+example : applyItem [] ⟨.query ['q'] [], none, none⟩ exVal = .err .mixed :=
+  query_only_whole _ _ ['q'] [] _ rfl (by decide) (fun _ h => by cases h)
 
 end SigmaVerif.Props.C17
